@@ -1,5 +1,5 @@
 From Coq Require Import ZArith List.
-From PV Require Import Base.U64 C12.C12_Model C12.C12_Mem C12.C12_MemC C12.C12_Iov C12.C12_Deser C12.C12_Walk C12.C12_Flat C12.C12_Proofs.
+From PV Require Import Base.U64 C12.C12_Model C12.C12_Mem C12.C12_MemC C12.C12_Iov C12.C12_Deser C12.C12_Walk C12.C12_Flat C12.C12_Proofs C12.C12_Sep C12.C12_Wire C12.C12_RtD C12.C12_RtS C12.C12_Rt.
 Theorem deser_in_bounds_no_trap : forall hstep sh m v,
   shape_wf sh -> inv m v ->
   exists t st, deserialize hstep cfg_final sh m v = Ok (t, st) /\ inv (d_mem st) (d_iov st) /\
@@ -73,3 +73,49 @@ Theorem checked_rejects_on_hash_mismatch : forall hstep c sh m v t1 m1 v1 okc m2
   exists st, deserialize hstep c sh m v = Ok (0%Z, st).
 Proof. exact checked_rejects_hash_mismatch. Qed.
 Print Assumptions checked_rejects_on_hash_mismatch.
+Theorem ser_roundtrip_noiov_unchecked_partial : forall hstep sh ms x sst vals wf Fs body mr v,
+  shape_wf sh -> sh_checked sh = false ->
+  sup_fs (sh_fields sh) -> lay_fs (sh_fields sh) -> (forall b, psep (aranges_fs (sh_fields sh) b)) ->
+  Forall (fun L => (L <= STRIDE)%Z) (lens ms) ->
+  rd_fs (perm (sh_fields sh)) ms x = Ok (vals, wf, Fs) -> load ms x (sh_size sh) = Ok body ->
+  serialize hstep cfg_final sh ms x = Ok sst -> s_full sst = false ->
+  inv mr v -> psep (i_el v) -> flat mr (i_el v) = flat (s_mem sst) (i_el (s_iov sst)) ->
+  (i_nb v + 1 + len Fs <= i_cap v)%Z ->
+  exists t st w2 F, deserialize hstep cfg_final sh mr v = Ok (t, st) /\ t <> 0%Z /\
+    ptr_ok (lens (d_mem st)) t (sh_size sh) /\
+    rd_fs (perm (sh_fields sh)) (d_mem st) t = Ok (vals, w2, F) /\
+    flat (d_mem st) (i_el (d_iov st)) = Ok nil.
+Proof. exact ser_roundtrip_noiov_unchecked. Qed.
+Print Assumptions ser_roundtrip_noiov_unchecked_partial.
+Theorem ser_roundtrip_serialize_emits_wire_partial : forall hstep sh ms x sst vals wf Fs body,
+  sh_checked sh = false -> sup_fs (sh_fields sh) ->
+  serialize hstep cfg_final sh ms x = Ok sst -> s_full sst = false ->
+  rd_fs (perm (sh_fields sh)) ms x = Ok (vals, wf, Fs) -> load ms x (sh_size sh) = Ok body ->
+  s_mem sst = ms /\ flat ms (i_el (s_iov sst)) = Ok (wf ++ body).
+Proof. exact serialize_wire. Qed.
+Print Assumptions ser_roundtrip_serialize_emits_wire_partial.
+Theorem ser_roundtrip_deserialize_any_fragmentation_partial : forall hstep sh ms x mr v vals wf Fs body,
+  shape_wf sh -> sh_checked sh = false ->
+  sup_fs (sh_fields sh) -> lay_fs (sh_fields sh) -> (forall b, psep (aranges_fs (sh_fields sh) b)) ->
+  Forall (fun L => (L <= STRIDE)%Z) (lens ms) ->
+  rd_fs (perm (sh_fields sh)) ms x = Ok (vals, wf, Fs) -> load ms x (sh_size sh) = Ok body ->
+  inv mr v -> flat mr (i_el v) = Ok (wf ++ body) -> psep (i_el v) ->
+  (i_nb v + 1 + len Fs <= i_cap v)%Z ->
+  exists t st w2 F, deserialize hstep cfg_final sh mr v = Ok (t, st) /\ t <> 0%Z /\
+    ptr_ok (lens (d_mem st)) t (sh_size sh) /\
+    rd_fs (perm (sh_fields sh)) (d_mem st) t = Ok (vals, w2, F) /\
+    flat (d_mem st) (i_el (d_iov st)) = Ok nil /\
+    inv (d_mem st) (d_iov st).
+Proof. exact deserialize_rt. Qed.
+Print Assumptions ser_roundtrip_deserialize_any_fragmentation_partial.
+Theorem ser_roundtrip_extract_front_refines_flat_partial : forall m v n w,
+  inv m v -> (0 < n)%Z -> flat m (i_el v) = Ok w -> (n <= len w)%Z -> psep (i_el v) -> (i_nb v < i_cap v)%Z ->
+  exists p m' v', efc m v n = Ok (p, m', v') /\ xpost m v n p m' v' (firstn (Z.to_nat n) w) (skipn (Z.to_nat n) w).
+Proof. exact efc_flat. Qed.
+Print Assumptions ser_roundtrip_extract_front_refines_flat_partial.
+Theorem ser_roundtrip_extract_back_refines_flat_partial : forall m v n w,
+  inv m v -> (0 < n)%Z -> flat m (i_el v) = Ok w -> (n <= len w)%Z -> psep (i_el v) -> (i_nb v < i_cap v)%Z ->
+  exists p m' v', ebc m v n = Ok (p, m', v') /\
+    xpost m v n p m' v' (skipn (Z.to_nat (len w - n)) w) (firstn (Z.to_nat (len w - n)) w).
+Proof. exact ebc_flat. Qed.
+Print Assumptions ser_roundtrip_extract_back_refines_flat_partial.
